@@ -3,13 +3,15 @@ package props
 // C05 — committed transactions are serializable on the rows they touch.
 // Part A (Engine A): every statement-granularity interleaving of two (thorough: three) read-modify-write
 // transaction programs over overlapping rows; reads by point / range on the key through every access path,
-// writes only to the non-key column of rows addressed by key (no phantoms possible), unique written values.
+// writes only to the non-key column of rows addressed by key, DELETE by key (no phantoms possible), unique
+// written values.
 // Oracle: brute force over the serial orders of the COMMITTED transactions - some order must reproduce
 // every committed transaction's observed reads and the final table.
 
 import (
 	"encoding/json"
 	"fmt"
+	"hash/crc32"
 	"strings"
 	"time"
 
@@ -45,11 +47,17 @@ func c05Stmt(txn, idx int) *Stmt {
 		// scan-path update of row 1: the sequential scan hands out row 1 and, in the same step, moves on to
 		// (and locks) the row behind it
 		return &Stmt{Kind: "update", Table: "t", Set: []SetItem{{"v", fmt.Sprintf("s%d.1", txn)}}, Where: ForceScan(Leaf{"k", "=", k(1)})}
+	case 7:
+		// DELETE by key: removes a row, cannot make a row newly match anybody's predicate. Until the deleter
+		// ends the row is only delete-marked - a reader must wait/abort, not skip it
+		return &Stmt{Kind: "delete", Table: "t", Where: Leaf{"k", "=", k(2)}}
+	case 8:
+		return sel(ForceScan(Leaf{"k", ">=", k(0)})) // scan-path read of every row
 	}
 	return nil
 }
 
-const c05NStmt = 7
+const c05NStmt = 9
 
 type c05Obs struct {
 	stmt *Stmt
@@ -120,7 +128,18 @@ func c05Cfg(p c05Params) *WorldCfg {
 		}
 		return ops
 	}
-	cfg.KeyExtra = func(w *World) string { return fmt.Sprint(nStmt, begun, committed) }
+	// the observations are part of the state: two histories that reach the same database state with different
+	// reads behind them have different futures as far as the oracle is concerned (without this, a whole-table
+	// read that wrongly skipped a row was merged with a one-row read that left the same locks behind)
+	cfg.KeyExtra = func(w *World) string {
+		var sb strings.Builder
+		for t := 1; t <= p.Txns; t++ {
+			for _, o := range obs[t] {
+				fmt.Fprintf(&sb, "%d:%s=%08x;", t, shortSQL(o.stmt.SQL()), crc32.ChecksumIEEE([]byte(o.rows)))
+			}
+		}
+		return fmt.Sprint(nStmt, begun, committed) + sb.String()
+	}
 	cfg.After = func(w *World, op string) *core.Violation {
 		if len(w.txns) != 0 || !(strings.HasPrefix(op, "commit") || strings.HasPrefix(op, "abort") || strings.HasPrefix(op, "sql")) {
 			return nil
@@ -201,7 +220,7 @@ func init() {
 			return 170 * time.Second
 		},
 		Assume: []string{
-			"programs cannot create phantoms: reads by key (point, range, scan path), writes only to the non-key column of rows addressed by key, no insert/delete, the key is never updated; written values are unique per (transaction, row)",
+			"programs cannot create phantoms: reads by key (point, range, scan path, whole table), writes only to the non-key column of rows addressed by key, DELETE of one row by key, no insert, the key is never updated; written values are unique per (transaction, row)",
 			"the oracle looks only at committed transactions; aborts decided by the engine are acceptable",
 			"part A interleaves at statement granularity; part B (c05 concurrent) runs the statements as concurrently scheduled goroutines",
 		},
